@@ -2,6 +2,8 @@ package main
 
 import (
 	"fmt"
+	"os"
+	"os/exec"
 	"regexp"
 	"strings"
 	"time"
@@ -108,9 +110,31 @@ func humanObs(out string) (string, bool) {
 	return fmt.Sprintf("(HCaret %d %d)", n-1, len(mark)-1), true
 }
 
+// deepChild: the parse that used to end the process with "fatal error: stack overflow" runs in a
+// child process, so that the parent can report it as a failing input.
+func deepChild() {
+	n := 2000000
+	src := "a = " + strings.Repeat("[", n)
+	for _, ff := range []bool{true, false} {
+		r := bcl.ParseFile(src, ff)
+		if r.ErrKind != "with-source" || len(r.Diags) == 0 {
+			fmt.Println("no diagnostics for", n, "nested brackets")
+			os.Exit(3)
+		}
+	}
+	src = "a = " + strings.Repeat("[", n) + strings.Repeat("]", n) + "\n"
+	if _, err := bcl.Fmt(src); err == nil {
+		fmt.Println("formatter accepted", n, "nested brackets")
+	}
+	os.Exit(0)
+}
+
 func runC11(cfg *vh.Config) error {
+	if os.Getenv("BCL_DEEP_CHILD") == "1" {
+		deepChild()
+	}
 	res := vh.NewResult("C11", cfg.Seed)
-	res.Rule = "inputs: every sequence of <=3 tokens over a 24-entry alphabet (all token types, a space, a character no token starts with, an unterminated string) rendered with single spaces, every sequence of <=2 rendered adjacent; windows of the repository's .j5s/.bcl/fixture files, unmutated and with 1-3 token deletions/insertions/swaps/duplications/truncations and multi-byte characters at line ends; grammar-generated files; every token-boundary prefix of generated statements (EOF in every grammatical position); random token soup incl. invalid UTF-8; both failFast values; non-trivial = distinct non-empty input"
+	res.Rule = "inputs: every sequence of <=3 tokens over a 24-entry alphabet (all token types, a space, a character no token starts with, an unterminated string) rendered with single spaces, every sequence of <=2 rendered adjacent; windows of the repository's .j5s/.bcl/fixture files, unmutated and with 1-3 token deletions/insertions/swaps/duplications/truncations and multi-byte characters at line ends; grammar-generated files; every lexer sub-automaton (string, regex, block/line comment, description, number, stray character) x every continuation (valid escapes, invalid escape, lone backslash) x every ending (closed, newline, end of input without newline) in six grammatical positions; every token-boundary prefix of generated statements (EOF in every grammatical position); array values nested 1500 (also in Coq) / 9999/10000/10001/10003 deep (the bound of popValue) and 2,000,000 deep in a child process; random token soup incl. invalid UTF-8; both failFast values; non-trivial = distinct non-empty input"
 	cf := &vh.CasesFile{
 		Header: "From Coq Require Import String List NArith ZArith.\nFrom J5V.model Require Import BclErrpos BclCorr.",
 		Type:   "c11case",
@@ -147,7 +171,7 @@ func runC11(cfg *vh.Config) error {
 		inputs = append(inputs, input{s, "seq2adj", cfg.Tier == "thorough" || r.Chance(40)})
 	}
 	// ---- stream 2: corpus windows, unmutated and mutated
-	nWin := cfg.Scale(300, 6000)
+	nWin := cfg.Scale(250, 4500)
 	for i := 0; i < nWin; i++ {
 		w := window(r, vh.Pick(r, corpus), 10)
 		if i%3 != 0 {
@@ -162,7 +186,7 @@ func runC11(cfg *vh.Config) error {
 	}
 	// ---- stream 3: grammar-generated
 	g := &srcGen{r: r.Fork("gen")}
-	nGen := cfg.Scale(250, 6000)
+	nGen := cfg.Scale(200, 4500)
 	for i := 0; i < nGen; i++ {
 		s := g.file(5)
 		if i%2 == 1 {
@@ -171,7 +195,7 @@ func runC11(cfg *vh.Config) error {
 		inputs = append(inputs, input{s, "grammar", true})
 	}
 	// ---- stream 4: soup and raw bytes
-	nSoup := cfg.Scale(200, 4000)
+	nSoup := cfg.Scale(150, 3000)
 	for i := 0; i < nSoup; i++ {
 		if i%5 == 4 {
 			inputs = append(inputs, input{string(r.Bytes(r.Range(0, 24))), "bytes", true})
@@ -180,9 +204,26 @@ func runC11(cfg *vh.Config) error {
 		}
 	}
 
+	// ---- stream 4a: every lexer sub-automaton x every continuation x every ending (closed, newline, end of input),
+	// in several grammatical positions; all through the oracle, a sample through the model
+	{
+		tails := lexTails()
+		heads := []string{"", "a = ", "a ", "a {\n", "x = [1, ", "a.b: "}
+		afters := []string{"", "\nb = 1\n", " c\n"}
+		nEmit := cfg.Scale(200, 2500)
+		total := len(tails) * len(heads) * len(afters)
+		for _, h := range heads {
+			for _, t := range tails {
+				for _, a := range afters {
+					inputs = append(inputs, input{h + t + a, "lextail", r.Intn(total) < nEmit})
+				}
+			}
+		}
+	}
+
 	// ---- stream 4b: every prefix (at token boundaries) of valid statements: EOF in every grammatical position
 	gp := &srcGen{r: r.Fork("prefix")}
-	nPre := cfg.Scale(60, 600)
+	nPre := cfg.Scale(50, 600)
 	for i := 0; i < nPre; i++ {
 		var sb strings.Builder
 		gp.statement("", 1, &sb)
@@ -193,6 +234,38 @@ func runC11(cfg *vh.Config) error {
 		for k := 1; k <= len(p); k++ {
 			inputs = append(inputs, input{strings.Join(p[:k], ""), "prefix", cfg.Tier == "thorough" || r.Chance(25)})
 		}
+	}
+
+	// ---- stream 4c: array nesting around the bound of popValue (maxValueDepth = 10000)
+	// (the model is evaluated in Coq only on the 1500-deep case: its lexer recomputes the remaining length per token)
+	for _, n := range []int{1500, 9999, 10000, 10001} {
+		inputs = append(inputs, input{"a = " + strings.Repeat("[", n) + strings.Repeat("]", n) + "\n", "deep", n == 1500})
+	}
+	inputs = append(inputs, input{"a = " + strings.Repeat("[", 10003), "deep", false})
+	{
+		// 2,000,000 nested brackets, in a child process (a stack overflow is fatal, recover cannot catch it)
+		cmd := exec.Command(os.Args[0], "-prop", "C11", "-out", cfg.Out)
+		cmd.Env = append(os.Environ(), "BCL_DEEP_CHILD=1")
+		done := make(chan error, 1)
+		var outb []byte
+		go func() { var e error; outb, e = cmd.CombinedOutput(); done <- e }()
+		select {
+		case e := <-done:
+			res.Count("deep_child")
+			if e != nil {
+				msg := string(outb)
+				if i := strings.Index(msg, "fatal error"); i >= 0 {
+					msg = clip(msg[i:], 120)
+				} else {
+					msg = clip(msg, 200)
+				}
+				res.Fail(vh.Failure{Case: caseNo, Stream: "deep", Sig: "C11 ParseFile ends the process on deeply nested arrays", Clause: "never panics and always terminates", Input: "\"a = \" + 2000000 x \"[\"", Got: fmt.Sprintf("%v: %s", e, msg)})
+			}
+		case <-time.After(120 * time.Second):
+			_ = cmd.Process.Kill()
+			res.Fail(vh.Failure{Case: caseNo, Stream: "deep", Sig: "C11 ParseFile does not terminate", Clause: "always terminates", Input: "\"a = \" + 2000000 x \"[\"", Got: "no result after 120s"})
+		}
+		caseNo++
 	}
 
 	humanBudget := cfg.Scale(250, 4000)
